@@ -46,10 +46,21 @@ func c14Order(c *run.Ctx) {
 			lets = append(lets, v)
 		}
 		ns := r.Range(6, 14)
+		endWithLoad := r.Bool()
 		for s := 0; s < ns; s++ {
 			cell := r.Intn(len(b))
 			e := pick()
-			switch k := r.Intn(8); {
+			kind := r.Intn(8)
+			if endWithLoad && s == ns-1 {
+				kind = 0 // the last statement before the result stores is a plain load
+				if len(ptrs) > 0 && r.Bool() {
+					kind = 50
+				}
+			}
+			switch k := kind; {
+			case k == 50:
+				p := r.Intn(len(ptrs))
+				newLet(fmt.Sprintf("*p%d", p), b[ptrs[p]])
 			case k == 0 || len(lets) == 0:
 				newLet(fmt.Sprintf("b[%d]", cell), b[cell])
 			case k == 1:
@@ -91,8 +102,22 @@ func c14Order(c *run.Ctx) {
 				newLet(fmt.Sprintf("t%d + %s", t, e.text), lets[t]+e.val)
 			}
 		}
+		// results are written either through fresh access chains, or through pointer lets declared before everything
+		// else - then the stores add no expression and the function's last expression is the last load
+		ptrTail := r.Bool()
 		for k := range lets {
-			lines = append(lines, fmt.Sprintf("o[%d] = t%d;", k, k))
+			if ptrTail {
+				lines = append(lines, fmt.Sprintf("*q%d = t%d;", k, k))
+			} else {
+				lines = append(lines, fmt.Sprintf("o[%d] = t%d;", k, k))
+			}
+		}
+		if ptrTail {
+			var pre []string
+			for k := range lets {
+				pre = append(pre, fmt.Sprintf("let q%d = &o[%d];", k, k))
+			}
+			lines = append(pre, lines...)
 		}
 		src := `override ova: u32 = 1u;
 override ovb: u32;
